@@ -358,7 +358,7 @@ def run_mc(module, cfg=None, workers=8, timeout=1800, xmx="8g", cache=True, extr
     if msim and st == 0:
         st = gen = int(msim.group(1))
     res = {"ok": ok, "states": st, "transitions": max(gen - 1, 0), "violated": [a or b for a, b in violated],
-           "wall_s": round(time.time() - t, 1), "output_tail": out[-1500:], "tuples": collect_tuples(out)[:20000]}
+           "wall_s": round(time.time() - t, 1), "output_tail": out[-1500:], "tuples": collect_tuples(out)[:120000]}
     log(f"[tlc] MC {module}/{cfg}: ok={ok} states={st} {res['wall_s']}s")
     if cache:
         json.dump(res, open(cpath, "w"))
